@@ -15,6 +15,9 @@ HARNESS = "h_kill"
 FLAVOUR = "asan"
 
 NAMES = ["a", "a1", "ab", "b", "a.b", "c", "x", "ba"]
+# stream `meta`: directory names that contain glob(3) metacharacters literally, next to siblings the same string would
+# match as a pattern (a cgroup name is never a pattern: children are reached through the held directory fd)
+META_NAMES = ["a*", "a?", "[ab]", "a1", "ab", "a", "b", "a[1]", "{a,b}", "*"]
 TOPS = ["w", "sys", "w1"]
 SIMPLE_KEY_PLUGINS = ["kill_by_pressure", "kill_by_swap_usage", "kill_by_pg_scan"]
 OPAQUE_KEY_PLUGINS = ["kill_by_memory_size_or_growth", "kill_by_io_cost"]
@@ -112,7 +115,7 @@ def gen_node(rng, ids, name, depth, o):
     if k and rng.random() < o["p_zero"]:
         n["procs"].insert(rng.randrange(len(n["procs"]) + 1), "0")
     if depth < o["depth"]:
-        for cn in rng.sample(NAMES, rng.randint(0, o["branch"])):
+        for cn in rng.sample(o.get("names", NAMES), rng.randint(0, o["branch"])):
             if rng.random() < 0.8:
                 n["children"].append(gen_node(rng, ids, cn, depth + 1, o))
     n["_k"] = rng.randint(0, o["keys"])
@@ -343,8 +346,14 @@ def gen_one(rng, tier, prop, stream):
         over["p_zero"] = 0.5
     if stream == "nonint":
         over["p_nonint"] = 0.5
+    if stream == "meta":
+        over.update(names=META_NAMES, branch=rng.choice([3, 4, 5]), depth=rng.choice([2, 3]), p_empty=0.1, p_oomgroup=0.0)
     ids, tree = gen_world(rng, tier, prop, over)
     plugin = rng.choice(SIMPLE_KEY_PLUGINS * 3 + OPAQUE_KEY_PLUGINS) if rng.random() < 0.6 else "kill_by_pressure"
+    if stream == "meta":
+        # plugins whose ranking key does not go through the sibling lookup of getMemoryProtection (which treats
+        # sibling paths as patterns already in the unchanged code - a C15 matter, not containment)
+        plugin = rng.choice(["kill_by_pressure", "kill_by_pressure", "kill_by_swap_usage"])
     args = {}
     if plugin == "kill_by_pressure":
         args["resource"] = rng.choice(["memory", "memory", "io"])
@@ -367,6 +376,11 @@ def gen_one(rng, tier, prop, stream):
             n["_pgrate"] = 0
     finish_tree(tree, plugin, args)
     args["cgroup"] = gen_patterns(rng, tree)
+    if stream == "meta":
+        tops = [c["name"] for c in tree["children"]]
+        args["cgroup"] = rng.choice([",".join(t + "/*" for t in tops), "*/*", ",".join(tops)])
+        args["recursive"] = rng.choice(["true", "true", "false"]) if args["cgroup"] != ",".join(tops) else "true"
+        args.pop("kernelkill", None)
     # a cgroup that is a candidate twice (a root and, through recursion, a descendant of another root) is attempted
     # once per way; the trace cannot tell the two apart, so the acceptor's tie-breaking would be a guess: not generated
     for _ in range(20):
